@@ -168,6 +168,7 @@ func ParseProgram(src string, res *Result) (prog *parser.Program) {
 
 // RunL1 executes one scenario at level L1 under its schedule and faults.
 func RunL1(sc *Scenario, o L1Opts) *Result {
+	Heartbeat()
 	res := &Result{Stage: "parse"}
 	InstallSchedule(&sc.Schedule)
 	prog := ParseProgram(sc.Program, res)
